@@ -535,7 +535,8 @@ def c08(d, run):
 def _liveness(d, run):
     r = d.tlc_mc("MC_Cache.tla", "MC_Cache_live.cfg", run.workdir, workers=4, timeout=1800)
     run.add_mc(r, "MC_Cache_live (liveness under weak fairness of processor and client continuation steps: every started call "
-                  "returns unless known finding D6 occurred; after close() both workers stop; 2 clients x 2 calls of insert/wait/clear/close)")
+                  "returns unless known finding D6 occurred; after close() both workers stop; after every handle was dropped without close() both "
+                  "workers stop; 2 clients x 2 calls of insert/wait/clear/close, handles dropped at any idle point)")
     if r["violated"]:
         run.violation("specification Cache.tla violates liveness %s in MC_Cache_live.cfg" % r["violated"], replay_lines=[r["out"][-8000:]])
     if _thorough(run):
